@@ -192,6 +192,15 @@ End Algorithm.
 Definition epoch_of_date {T} (ltb : T -> T -> bool) (y2020 y2025 : T) (date : T) : nat :=
   if ltb date y2020 then 0 else if ltb date y2025 then 1 else 2.
 
+(* straight-line programs: the second rendering of regenerated polynomial targets (gen/C14prog.v, written by
+   tools/props/C14.py; semantics and use in coq/props/C14/C14_ssa.v).  Operands are indices of earlier instructions. *)
+Inductive instr :=
+| IC (q : Q)                 (* rational constant *)
+| IA (k : nat)               (* atom k *)
+| IAdd (i j : nat) | ISub (i j : nat) | IMul (i j : nat)
+| INeg (i : nat)
+| IPow (i : nat) (n : nat).
+
 (* ------------------------------------------------------------------------------------------ *)
 (* instances                                                                                    *)
 (* ------------------------------------------------------------------------------------------ *)
